@@ -195,7 +195,7 @@ func c12ToInt(c *Ctx) {
 	for _, e := range ana.Exits(fn) {
 		if e.Panic {
 			es := plainEdges(edgesMatching(b, "bin<!=>(len(p0), 243)"))
-			r.Check(mustPass(fn, e.Instr.Block(), es), "C12.toInt.length-guard", c.ipos(e.Instr), "toInt panics only for a slice that is not 243 trits")
+			r.Check(exitMustPass(fn, e, es), "C12.toInt.length-guard", c.ipos(e.Instr), "toInt panics only for a slice that is not 243 trits")
 			continue
 		}
 		t := b.Of(e.Results[0], e.Instr)
@@ -286,15 +286,15 @@ func c12Thresholds(c *Ctx) {
 		for _, e := range ana.Exits(fn) {
 			if e.Panic {
 				es := plainEdges(edgesMatching(b, "bin<<>(bin<+>(bin</>(18446744073709551614, conv<uint64>(bin<+>(len(p0), 8))), 1), p1)"))
-				r.Check(mustPass(fn, e.Instr.Block(), es), "C12.thresholds.overflow-guard", c.ipos(e.Instr), "panics only when len·t would not fit 64 bits")
+				r.Check(exitMustPass(fn, e, es), "C12.thresholds.overflow-guard", c.ipos(e.Instr), "panics only when len·t would not fit 64 bits")
 				continue
 			}
 			t := b.Of(e.Results[0], e.Instr)
 			if t.String() == "ind<+1>(0)" {
-				okS = mustPass(fn, e.Instr.Block(), hit)
+				okS = exitMustPass(fn, e, hit)
 			}
 			if t.IsInt(41) {
-				ok41 = mustPass(fn, e.Instr.Block(), out)
+				ok41 = exitMustPass(fn, e, out)
 			}
 		}
 		// the same search with `break` instead of `return s` and a single `return s` after the loop: s is then either the
@@ -307,7 +307,7 @@ func c12Thresholds(c *Ctx) {
 					continue
 				}
 				n++
-				if b.Of(e.Results[0], e.Instr).String() == "ind<+1>(0)" && mustPass(fn, e.Instr.Block(), both) {
+				if b.Of(e.Results[0], e.Instr).String() == "ind<+1>(0)" && exitMustPass(fn, e, both) {
 					okS, ok41 = true, true
 				}
 			}
@@ -323,7 +323,7 @@ func c12Thresholds(c *Ctx) {
 			if len(miss) == 1 && len(last) == 1 && mustPass(fn, last[0].From, miss) {
 				for _, e := range ana.Exits(fn) {
 					if !e.Panic && b.Of(e.Results[0], e.Instr).IsInt(41) {
-						ok41 = mustPass(fn, e.Instr.Block(), plainEdges(last))
+						ok41 = exitMustPass(fn, e, plainEdges(last))
 						in = true
 					}
 				}
@@ -341,7 +341,7 @@ func c12Thresholds(c *Ctx) {
 		for _, e := range ana.Exits(fn) {
 			if e.Panic {
 				es := plainEdges(edgesMatching(b, "bin<<>(len(p0), 8)"))
-				r.Check(mustPass(fn, e.Instr.Block(), es), "C12.thresholds.score-length-guard", c.ipos(e.Instr), "Score panics only for messages shorter than a nonce")
+				r.Check(exitMustPass(fn, e, es), "C12.thresholds.score-length-guard", c.ipos(e.Instr), "Score panics only for messages shorter than a nonce")
 				continue
 			}
 			t := b.Of(e.Results[0], e.Instr)
@@ -349,7 +349,7 @@ func c12Thresholds(c *Ctx) {
 			case matches("bin</>(call<(*math/big.Int).Uint64>("+d+"), conv<uint64>(len(p0)))", t):
 				n1++
 				diff = calleeOf(t.Arg(0).Arg(0))
-				r.Check(mustPass(fn, e.Instr.Block(), plainEdges(edgesMatching(b, "call<(*math/big.Int).IsUint64>("+d+")"))), "C12.thresholds.score-fast", c.ipos(e.Instr), "fast path: d fits 64 bits → d/len")
+				r.Check(exitMustPass(fn, e, plainEdges(edgesMatching(b, "call<(*math/big.Int).IsUint64>("+d+")"))), "C12.thresholds.score-fast", c.ipos(e.Instr), "fast path: d fits 64 bits → d/len")
 			case matches("call<(*math/big.Int).Uint64>(obj("+d+", call<(*math/big.Int).Quo>(self, self, call<math/big.NewInt>(conv<int64>(len(p0))))))", t):
 				n2++
 			case matches("18446744073709551615", t):
@@ -378,7 +378,7 @@ func c12Thresholds(c *Ctx) {
 		z := plainEdges(edgesMatching(b, "bin<==>(p3, 0)"))
 		ok := false
 		for _, e := range ana.Exits(fn) {
-			if !e.Panic && mustPass(fn, e.Instr.Block(), z) {
+			if !e.Panic && exitMustPass(fn, e, z) {
 				ok = b.Of(e.Results[0], e.Instr).IsInt(0) && b.Of(e.Results[1], e.Instr).Is("nil")
 			}
 		}
@@ -400,13 +400,13 @@ func c12Worker(c *Ctx) {
 	for _, e := range ana.Exits(fn) {
 		if e.Panic {
 			es := plainEdges(edgesMatching(b, "bin<>>(p3, 243)"))
-			r.Check(mustPass(fn, e.Instr.Block(), es), "C12.return.target-range", c.ipos(e.Instr), "the worker panics only for more than 243 sufficient zeros")
+			r.Check(exitMustPass(fn, e, es), "C12.return.target-range", c.ipos(e.Instr), "the worker panics only for more than 243 sufficient zeros")
 			continue
 		}
 		if b.Of(e.Results[1], e.Instr).Is("nil") {
 			vt := b.Of(e.Results[0], e.Instr)
 			_, ok := ana.Match("bin<+>(ind<+"+WS+">(p2), conv<uint64>(call<*>(_, _, p3, p4)))", vt)
-			r.Check(ok && mustPass(fn, e.Instr.Block(), hit), "C12.return.nonce", c.ipos(e.Instr), "returned nonce = batch base + lane index, only when the lane test found a lane: %s", short(vt.String(), 140))
+			r.Check(ok && exitMustPass(fn, e, hit), "C12.return.nonce", c.ipos(e.Instr), "returned nonce = batch base + lane index, only when the lane test found a lane: %s", short(vt.String(), 140))
 		}
 	}
 	fill := false
